@@ -1199,6 +1199,9 @@ class ExprMixin:
                 return Val("unknown", "call-of-empty"), preds
         if k == "superattr":
             return self.call_method(callee.args[0], callee.args[1], args, kwargs, preds)
+        if k == "field":
+            # a bound method kept in a local (`append = out.append; append(x)`): same as calling it on its owner
+            return self.call_method(callee.args[0], callee.args[1], args, kwargs, preds)
         if k == "rawfunc":
             # the undecorated function called from inside its wrapper: f(self, *args, **kwargs)
             f, r = callee.args
